@@ -51,7 +51,7 @@ __CPROVER_ensures(item->error_msg[JWT_ERR_LEN - 1] == 0)
 /* jwk_process_values: metadata extraction (shape: writes item metadata only, errors carry a message) */
 #define PV_FRAME(item) (item)->alg, (item)->use, (item)->key_ops, (item)->kid, (item)->error, SPEC_ERRMSG_FRAME(item)
 void contract_shape_jwk_process_values(json_t *jwk, jwk_item_t *item)
-__CPROVER_requires(jwk != NULL && __CPROVER_rw_ok(item, sizeof(*item)))
+__CPROVER_requires(jwk != NULL && __CPROVER_r_ok(jwk, sizeof(json_t)) && jwk->type == JSON_OBJECT && jwk->refcount >= 1 && __CPROVER_rw_ok(item, sizeof(*item)))
 __CPROVER_requires(item->error_msg[JWT_ERR_LEN - 1] == 0)
 __CPROVER_assigns(PV_FRAME(item))
 __CPROVER_ensures(item->error_msg[JWT_ERR_LEN - 1] == 0)
